@@ -4,6 +4,8 @@
 package c01
 
 import (
+	"strings"
+	"fmt"
 	"testing"
 
 	"pgregory.net/rapid"
@@ -69,6 +71,37 @@ func runReuse(t *testing.T, sc sim.Scenario) engine.Verdict {
 func init() {
 	parts = append(parts, engine.Part[sim.Scenario]{Name: "idreuse", Run: runReuse, Gen: genReuse,
 		Rule: "as scenarios, over a pool of four ids used again and again after their calls were answered with results, errors or method-not-found: a well-formed call whose id is free runs its handler exactly once and gets that handler's outcome (duplicates of ids still in flight are the subject of C07 and are not judged here); non-trivial as scenarios; distinct = hash of the scenario"})
+}
+
+// restart: "while a connection is up" holds for every connection of a Server,
+// the second one after a stop and Start on a fresh channel included.
+func genRestart(t *rapid.T) sim.Scenario { return gen.ShutdownScenario(t) }
+
+func runRestart(t *testing.T, sc sim.Scenario) engine.Verdict {
+	h := sim.Run(t, sc)
+	if h.BubbleErr != "" {
+		return engine.Verdict{Labels: []string{"other-clause:bubble-error"}} // judged by C08
+	}
+	probeSent, replies, faultLater := false, 0, false
+	for _, e := range h.Events {
+		switch {
+		case e.Conn == 2 && e.Kind == "sent" && strings.Contains(e.Data, `"id":"probe"`) && e.Err == "":
+			probeSent = true
+		case e.Conn == 2 && e.Kind == "wire":
+			replies += strings.Count(e.Data, `"id":"probe"`)
+		case e.Conn == 2 && (e.Kind == "recvfault" || e.Kind == "sendfault"):
+			faultLater = true
+		}
+	}
+	if probeSent && !faultLater && replies != 1 {
+		return engine.Failf("C01/call-on-second-connection", "the call with id \"probe\" sent on the second connection of the same Server got %d replies, want exactly 1\nscript:\n%s\nhistory:\n%s", replies, oracle.ScriptText(sc), oracle.HistoryText(h))
+	}
+	return engine.Verdict{NonTrivial: probeSent, Labels: []string{fmt.Sprintf("second-connection:%v", probeSent)}}
+}
+
+func init() {
+	parts = append(parts, engine.Part[sim.Scenario]{Name: "restart", Run: runRestart, Gen: genRestart,
+		Rule: "shutdown scripts (traffic, Stop / peer close / channel faults, WaitStatus, Start of the same Server on a fresh channel): the plain call sent first on the second connection gets exactly one reply (and the process survives: a panic raised in the library is reported with the journalled script); non-trivial = the script reached a second connection; distinct = hash of the scenario"})
 }
 
 func TestProp(t *testing.T)   { engine.RunParts(t, "C01", parts) }
